@@ -358,6 +358,7 @@ pub fn run(cfg: &Cfg) -> i32 {
     }
     if cfg.stage != "miri" {
         second_reply_stage(&mut rep, cfg);
+        retry_stage(&mut rep, cfg);
     }
     rep.finish()
 }
@@ -365,6 +366,104 @@ pub fn run(cfg: &Cfg) -> i32 {
 /// A reply with an rpc-error of severity error that has been read off the transport by another
 /// request's future, followed by a second, positive reply bearing the same message-id: the
 /// request was answered with an error and must not be reported as successful.
+/// A request whose send fails although it reached the server (write done, flush timed out) is
+/// retried on the same session. The server grants the first and refuses the retry (<lock> granted,
+/// then lock-denied): the retry's caller must not be told "success" on the strength of the answer
+/// to the request it was told had failed.
+fn retry_stage(rep: &mut Report, cfg: &Cfg) {
+    use crate::sched::drive;
+    let n = cfg.count(300, 30_000);
+    let mut uniq = 2_000_000u32;
+    for i in 0..n {
+        let idx = cfg.case_index(i);
+        let mut r = cfg.prng("C08-retry", idx);
+        let kind = r.below(4);
+        let mut err_items = gen_items(&mut r, &mut uniq, false, kind);
+        let mut errs = Vec::new();
+        all_errs(&err_items, &mut errs);
+        if !errs.iter().any(|e| e.severity == "error") {
+            let mut e = gen_err(&mut r, &mut uniq);
+            while e.severity != "error" {
+                e = gen_err(&mut r, &mut uniq);
+            }
+            err_items.insert(0, Item::Err(e));
+        }
+        let mut err_body = String::new();
+        render(&err_items, &mut err_body);
+        let ok_body = match kind {
+            0 => "<ok/>".to_string(),
+            1 => "<data>payload</data>".to_string(),
+            2 => String::new(),
+            _ => "<load-configuration-results><ok/></load-configuration-results>".to_string(),
+        };
+        let mut s = sess::establish_ok(crate::memwire::ALL_CAPS);
+        // 0-3 ordinary exchanges first, so that the failing send is not always the first
+        let before = r.below(4);
+        let mut ok_so_far = true;
+        for _ in 0..before {
+            let Some(Ok(f)) = drive(s.session.rpc::<Get, _>(|b| b.finish()), 64) else {
+                ok_so_far = false;
+                break;
+            };
+            let id = s.wire.lock().sent.last().and_then(|m| crate::memwire::request_message_id_lenient(m)).unwrap_or_default();
+            s.wire.deliver(crate::memwire::data_reply(&id, "warm-up"));
+            ok_so_far &= matches!(drive(Box::pin(f), 64), Some(Ok(_)));
+        }
+        if !ok_so_far {
+            rep.violation("retry:warm-up-exchange-failed", "an ordinary exchange before the faulted send failed", json!({"case_index": idx, "seed": cfg.seed}));
+            continue;
+        }
+        type BoxFut = std::pin::Pin<Box<dyn std::future::Future<Output = Result<String, netconf::Error>>>>;
+        let mut issue = |s: &mut sess::Sess| -> Option<Result<BoxFut, netconf::Error>> {
+            match kind {
+                0 => drive(s.session.rpc::<Lock, _>(|b| b.target(Datastore::Running)?.finish()), 64).map(|r| r.map(|f| Box::pin(async move { f.await.map(|v| format!("{v:?}")) }) as BoxFut)),
+                1 => drive(s.session.rpc::<GetConfig<Opaque>, _>(|b| b.source(Datastore::Running)?.finish()), 64).map(|r| r.map(|f| Box::pin(async move { f.await.map(|v| format!("{v:?}")) }) as BoxFut)),
+                2 => drive(s.session.rpc::<CloseConfiguration, _>(|b| b.finish()), 64).map(|r| r.map(|f| Box::pin(async move { f.await.map(|v| format!("{v:?}")) }) as BoxFut)),
+                _ => drive(s.session.rpc::<LoadConfiguration<Config<String, Text, Merge>>, _>(|b| b.source(Config::new("x".to_string(), Text, Merge)).finish()), 64)
+                    .map(|r| r.map(|f| Box::pin(async move { f.await.map(|v| format!("{v:?}")) }) as BoxFut)),
+            }
+        };
+        let attempt = s.wire.lock().send_attempts;
+        s.wire.lock().fail_after_write.insert(attempt);
+        let first = issue(&mut s);
+        if !matches!(first, Some(Err(_))) {
+            rep.violation("retry:faulted-send-not-reported", "send() failed but rpc() did not return an error", json!({"case_index": idx, "seed": cfg.seed}));
+            continue;
+        }
+        let Some(Ok(fb)) = issue(&mut s) else {
+            rep.count("retry_cases_in_which_the_retry_could_not_be_sent");
+            continue;
+        };
+        let ids: Vec<String> = s.wire.lock().sent.iter().filter_map(|m| crate::memwire::request_message_id_lenient(m)).collect();
+        if ids.len() < 2 {
+            continue;
+        }
+        let (ida, idb) = (ids[ids.len() - 2].clone(), ids[ids.len() - 1].clone());
+        let doc = |id: &str, body: &str| format!("<rpc-reply xmlns=\"{BASE_NS}\" message-id=\"{id}\">{body}</rpc-reply>{MARKER}").into_bytes();
+        s.wire.deliver(doc(&ida, &ok_body));
+        s.wire.deliver(doc(&idb, &err_body));
+        let rb = drive(fb, 64);
+        let key = format!("retry|{kind}|{before}|{err_body}");
+        rep.case(Some(key.as_bytes()));
+        rep.count("retry_after_failed_send_cases");
+        if ida == idb {
+            rep.count("retry_cases_in_which_the_retry_reused_the_message_id");
+        }
+        let wit = json!({"reply_type": KINDS[kind], "exchanges_before": before, "message_id_of_failed_request": ida, "message_id_of_retry": idb,
+            "server_answer_to_failed_request": ok_body, "server_answer_to_retry": clip(&err_body, 600), "case_index": idx, "seed": cfg.seed,
+            "retry": format!("{:?}", rb.as_ref().map(|r| r.as_ref().map(|v| v.clone()).map_err(|e| format!("{e:?}"))))});
+        match rb {
+            Some(Ok(_)) => rep.violation(
+                &format!("{}:retry-after-failed-send:refusal-reported-as-success", KINDS[kind]),
+                "the retry was answered with an rpc-error of severity error; the caller was handed the positive answer to the request whose send had failed",
+                wit,
+            ),
+            Some(Err(_)) => rep.count("retry_cases_reported_as_error"),
+            None => rep.violation(&format!("{}:retry-after-failed-send:left-pending", KINDS[kind]), "the retry's reply future did not resolve although both replies were delivered", wit),
+        }
+    }
+}
+
 fn second_reply_stage(rep: &mut Report, cfg: &Cfg) {
     use crate::sched::drive;
     let n = cfg.count(400, 40_000);
